@@ -272,6 +272,15 @@ package meta
 //@   callee (*bbolt.Cursor).*, (*bbolt.Bucket).*
 //@   pureeffect
 
+// The candidates come from an iterator that walks the bucket with the cursor objectLocked was
+// given; looking at a candidate (its type, its expiration, its removal mark) moves the cursor
+// it is done with, so each candidate is examined with a cursor made for it - on the iterator's
+// own cursor the first candidate's checks would end the walk, and a live lock behind an expired
+// one would never be seen.
+//@ callrule c07_candidate_examined_with_its_own_cursor in objectLocked$1
+//@   property C07, C01
+//@   callee metabase.isObjectType, metabase.isExpired, metabase.inGarbage
+//@   requires [not_the_cursor_the_candidates_are_iterated_with] resultOf(a0, "(*bbolt.Bucket).Cursor")
 // objectLocked$1 is the body of the range-over-func loop over the candidates: it returns false
 // (stop the iteration) only for a candidate that is a live, present lock.
 //@ func objectLocked$1
